@@ -1,3 +1,251 @@
+import Mhd.Model.ReplyWire
 import Driver.Common
-/- stub: replaced by the builder of this engine -/
-def main : IO Unit := Driver.runEngine () (fun s _ => (s, ["bad-op"]))
+open Mhd.ReplyStr Mhd.Resp Mhd.Reply Driver
+
+/-! Model driver of engine `reply` (C04).  See harness/h_reply.c for the same protocol on the real code. -/
+
+namespace G
+open Mhd.Gen.Reply
+def bit (n : Nat) (mask : Int) : Bool := mask > 0 && (n / mask.toNat) % 2 == 1
+
+def rflagsOfNat (n : Nat) : RFlags :=
+  { http10Strict := bit n rfHttp10Strict, http10Server := bit n rfHttp10Server, insanity := bit n rfInsanity,
+    sendKeepAlive := bit n rfSendKeepAlive, headOnly := bit n rfHeadOnly }
+def natOfRFlags (f : RFlags) : Nat :=
+  (if f.http10Strict then rfHttp10Strict.toNat else 0) + (if f.http10Server then rfHttp10Server.toNat else 0) +
+  (if f.insanity then rfInsanity.toNat else 0) + (if f.sendKeepAlive then rfSendKeepAlive.toNat else 0) +
+  (if f.headOnly then rfHeadOnly.toNat else 0)
+def autoOfNat (n : Nat) : AutoFlags :=
+  { connHdr := bit n rafConnHdr, connClose := bit n rafConnClose, transEnc := bit n rafTransEnc,
+    contentLength := bit n rafContentLength, date := bit n rafDate }
+def natOfAuto (f : AutoFlags) : Nat :=
+  (if f.connHdr then rafConnHdr.toNat else 0) + (if f.connClose then rafConnClose.toNat else 0) +
+  (if f.transEnc then rafTransEnc.toNat else 0) + (if f.contentLength then rafContentLength.toNat else 0) +
+  (if f.date then rafDate.toNat else 0)
+
+def kaOfInt (i : Int) : Option KA :=
+  if i == kaMustClose then some .mustClose else if i == kaUnknown then some .unknown
+  else if i == kaUseKeepalive then some .useKeepalive else if i == kaMustUpgrade then some .mustUpgrade else none
+def intOfKa : KA → Int
+  | .mustClose => kaMustClose | .unknown => kaUnknown | .useKeepalive => kaUseKeepalive | .mustUpgrade => kaMustUpgrade
+def verOfInt (i : Int) : Option Ver :=
+  [Ver.invalid, .unknown, .tooOld, .v10, .v11, .v12, .future].find? (fun v => v.num == i)
+def mthdOfInt (i : Int) : Option Mthd :=
+  if i == mthdNone then some .noMethod else if i == mthdGet then some .get else if i == mthdHead then some .head
+  else if i == mthdPost then some .post else if i == mthdPut then some .put else if i == mthdDelete then some .delete
+  else if i == mthdConnect then some .connect else if i == mthdOptions then some .options
+  else if i == mthdTrace then some .trace else if i == mthdOther then some .other else none
+end G
+
+def b01 (s : String) : Option Bool := if s == "0" then some false else if s == "1" then some true else none
+def optHex (s : String) : Option (Option Bytes) :=
+  if s == "none" then some none else (bytesOfHex s).map some
+
+/-- body byte at absolute position `i` (same pattern in the harness) -/
+def patByte (i : Nat) : UInt8 := UInt8.ofNat (97 + (i * 7 + i / 26) % 26)
+def patRange (start len : Nat) : Bytes := (List.range len).map fun j => patByte (start + j)
+
+def splitPieces (lens : List Nat) : List Bytes :=
+  (lens.foldl (fun (acc : Nat × List Bytes) n => (acc.1 + n, acc.2 ++ [patRange acc.1 n])) (0, [])).2
+
+structure Slot where
+  r : Resp
+  src : BodySrc
+deriving Inhabited
+
+structure St where
+  slots : List (Nat × Slot) := []
+
+def St.get (s : St) (i : Nat) : Option Slot := (s.slots.find? (·.1 == i)).map (·.2)
+def St.put (s : St) (i : Nat) (sl : Slot) : St := { slots := (i, sl) :: s.slots.filter (·.1 != i) }
+
+def hdrDump (h : Hdr) : String :=
+  (if h.kind == .header then "H:" else "F:") ++ hexOfBytes h.name ++ "=" ++ hexOfBytes h.value
+
+def respDump (r : Resp) : String :=
+  s!"fa={G.natOfAuto r.fa} fl={G.natOfRFlags r.flags}" ++ String.join (r.hdrs.map fun h => " " ++ hdrDump h)
+
+def callLine (s : St) (i : Nat) (f : Resp → Ret × Resp) : St × List String :=
+  match s.get i with
+  | none => (s, ["bad-op"])
+  | some sl =>
+    let (ret, r') := f sl.r
+    match ret with
+    | .crash => (s, ["crash"])
+    | .yes => (s.put i { sl with r := r' }, ["ret=1 " ++ respDump r'])
+    | .no => (s.put i { sl with r := r' }, ["ret=0 " ++ respDump r'])
+
+def kaChar (k : KA) : Char := Char.ofNat (48 + (G.intOfKa k + 1).toNat)
+def b32 : Array Char := "0123456789ABCDEFGHIJKLMNOPQRSTUV".toList.toArray
+def propsChar (k : KA) (p : Props) : Char :=
+  b32[((G.intOfKa k + 1).toNat * 8 + (if p.sendReplyBody then 4 else 0) + (if p.useReplyBodyHeaders then 2 else 0)
+        + (if p.chunked then 1 else 0)) % 32]!
+
+def mkConn (ka : KA) (rc dr : Bool) (ver : Ver) (ct : Nat) (m : Mthd) (sup : Bool) : Conn :=
+  { keepalive := ka, ver := ver, mthd := m, readClosed := rc, discardRequest := dr,
+    reqClose := ct % 2 == 1, reqKeepAlive := ct / 2 % 2 == 1, suppressDate := sup }
+
+def sizeOfClass (s : String) : Option Nat :=
+  if s == "0" then some 0 else if s == "n" then some 7 else if s == "u" then some Mhd.Gen.Reply.sizeUnknown else none
+
+/-- all 32 × 32 (response flags, flags_auto) combinations -/
+def grid (f : RFlags → AutoFlags → Char) : String :=
+  String.ofList ((List.range 1024).map fun i => f (G.rflagsOfNat (i / 32)) (G.autoOfNat (i % 32)))
+
+def maskDate : Bytes := "Thu, 01 Jan 1970 00:00:00 GMT".toUTF8.toList
+
+def mthdOfToken (s : String) : Mthd :=
+  if s == "GET" then .get else if s == "HEAD" then .head else if s == "POST" then .post else if s == "PUT" then .put
+  else if s == "DELETE" then .delete else if s == "CONNECT" then .connect else if s == "OPTIONS" then .options
+  else if s == "TRACE" then .trace else .other
+
+def sKeepAliveTok : Bytes := "Keep-Alive".toUTF8.toList
+
+/-- one scripted exchange; returns (queue results, wire, closed) -/
+partial def exchangeLoop (s : St) (date : Option Bytes) (wb : Nat) (c : Conn) (st : CState) (startPos : Nat)
+    (specs : List (Nat × Nat)) (qs : String) (wire : Bytes) : Option (String × Bytes × Bool) :=
+  match specs with
+  | [] => some (qs, wire, false)            -- nothing (more) queued: the connection just waits
+  | (slot, code) :: rest =>
+    match s.get slot with
+    | none => none
+    | some sl =>
+      match queueResponse c st false false true code sl.r with
+      | none => some (qs ++ "N", wire, true)
+      | some q =>
+        let c1 := if q.early then { c with discardRequest := true } else c
+        let sp := startPosAfterQueue q sl.r startPos
+        let out := sendReply c1 sl.r q sl.src date wb sp
+        let wire' := wire ++ out.wire
+        if ! out.complete then some (qs ++ "Y", wire', true)
+        else if sl.r.upgrade then some (qs ++ "Y", wire', true)
+        else
+          let c2 := { c1 with keepalive := out.ka }
+          if (q.code : Int) == Mhd.Gen.Reply.httpProcessing then
+            -- FIX F4e: `rsp_write_position` is reset after a 102 reply
+            exchangeLoop s date wb c2 .headersProcessed 0 rest (qs ++ "Y") wire'
+          else some (qs ++ "Y", wire', closesAfter c2 out.ka)
+
+def parseSpecs (s : String) : Option (List (Nat × Nat)) :=
+  (s.splitOn ",").mapM fun p =>
+    match p.splitOn ":" with
+    | [a, b] => match a.toNat?, b.toNat? with
+      | some x, some y => some (x, y)
+      | _, _ => none
+    | _ => none
+
+def stepLine (s : St) (ws : List String) : St × List String :=
+  match ws with
+  -- ---------------------------------------------------------------- response objects
+  | ["new", i, "buf", len] => match i.toNat?, len.toNat? with
+      | some i, some n => if n < 2 ^ 24 then (s.put i ⟨Resp.create n, .buffer (patRange 0 n)⟩, ["ok"]) else (s, ["bad-op"])
+      | _, _ => (s, ["bad-op"])
+  | ["new", i, "cb", total, lens, ending] =>
+      let tot : Option Nat := if total == "u" then some Mhd.Gen.Reply.sizeUnknown else total.toNat?
+      let ls : Option (List Nat) := if lens == "-" then some [] else (lens.splitOn ",").mapM String.toNat?
+      let e : Option CbEnd := if ending == "eos" then some .eos else if ending == "err" then some .err else none
+      match i.toNat?, tot, ls, e with
+      | some i, some t, some l, some e => (s.put i ⟨Resp.create t, .callback (splitPieces l) e⟩, ["ok"])
+      | _, _, _, _ => (s, ["bad-op"])
+  | ["new", i, "empty", fl] => match i.toNat?, fl.toNat? with
+      | some i, some f => (s.put i ⟨Resp.createEmpty (G.rflagsOfNat f), .buffer []⟩, ["ok"])
+      | _, _ => (s, ["bad-op"])
+  | ["new", i, "upg"] => match i.toNat? with
+      | some i => (s.put i ⟨Resp.createUpgrade, .buffer []⟩, ["ok"])
+      | _ => (s, ["bad-op"])
+  | ["add", i, n, v] => match i.toNat?, bytesOfHex n, bytesOfHex v with
+      | some i, some n, some v => callLine s i (fun r => addHeader r n v)
+      | _, _, _ => (s, ["bad-op"])
+  | ["del", i, n, v] => match i.toNat?, bytesOfHex n, bytesOfHex v with
+      | some i, some n, some v => callLine s i (fun r => delHeader r n v)
+      | _, _, _ => (s, ["bad-op"])
+  | ["foot", i, n, v] => match i.toNat?, bytesOfHex n, bytesOfHex v with
+      | some i, some n, some v => callLine s i (fun r => addFooter r n v)
+      | _, _, _ => (s, ["bad-op"])
+  | ["opt", i, f] => match i.toNat?, f.toNat? with
+      | some i, some f => if f < 32 then callLine s i (fun r => setOptions r (G.rflagsOfNat f)) else (s, ["bad-op"])
+      | _, _ => (s, ["bad-op"])
+  -- ---------------------------------------------------------------- decision functions (white box)
+  | ["kp", ka, upg, rc, dr, ver, ct] =>
+      match ka.toInt?.bind G.kaOfInt, b01 upg, b01 rc, b01 dr, ver.toInt?.bind G.verOfInt, ct.toNat? with
+      | some ka, some upg, some rc, some dr, some ver, some ct =>
+        if ct < 4 then
+          (s, [grid fun fl fa => kaChar (keepalivePossible (mkConn ka rc dr ver ct .get false)
+                                  { fa := fa, flags := fl, upgrade := upg })])
+        else (s, ["bad-op"])
+      | _, _, _, _, _, _ => (s, ["bad-op"])
+  | ["rb", m] => match m.toInt?.bind G.mthdOfInt with
+      | some m => (s, [String.ofList ((List.range 900).map fun i =>
+          match isReplyBodyNeeded m (100 + i) with | .none => '0' | .headersOnly => '1' | .send => '2')])
+      | none => (s, ["bad-op"])
+  | ["sp", ka, upg, rc, dr, ver, ct, m, size, code] =>
+      match ka.toInt?.bind G.kaOfInt, b01 upg, b01 rc, b01 dr, ver.toInt?.bind G.verOfInt, ct.toNat?,
+            m.toInt?.bind G.mthdOfInt, sizeOfClass size, code.toNat? with
+      | some ka, some upg, some rc, some dr, some ver, some ct, some m, some size, some code =>
+        if ct < 4 && 100 ≤ code && code ≤ 999 then
+          (s, [grid fun fl fa =>
+                 let (k, p) := setupReplyProperties (mkConn ka rc dr ver ct m false)
+                                 { fa := fa, flags := fl, upgrade := upg, totalSize := size } code
+                 propsChar k p])
+        else (s, ["bad-op"])
+      | _, _, _, _, _, _, _, _, _ => (s, ["bad-op"])
+  | ["n100", ver, rem, ex] =>
+      match ver.toInt?.bind G.verOfInt, rem.toNat?, optHex ex with
+      | some ver, some rem, some ex => (s, [if need100Continue ver rem ex then "1" else "0"])
+      | _, _, _ => (s, ["bad-op"])
+  | ["qr", i, st, hasresp, shut, allow, ver, m, code] =>
+      let cst : Option CState := if st == "hp" then some .headersProcessed else if st == "fr" then some .fullReqReceived
+                                 else if st == "ot" then some .other else none
+      match i.toNat?.bind s.get, cst, b01 hasresp, b01 shut, b01 allow, ver.toInt?.bind G.verOfInt,
+            m.toInt?.bind G.mthdOfInt, code.toNat? with
+      | some sl, some cst, some hr, some sh, some al, some ver, some m, some code =>
+        if code < 2 ^ 32 then
+          match queueResponse { ver := ver, mthd := m } cst hr sh al code sl.r with
+          | none => (s, ["N"])
+          | some q => (s, [s!"Y code={q.code} icy={if q.icy then 1 else 0} pret={if q.bodyPretendSent then 1 else 0} early={if q.early then 1 else 0}"])
+        else (s, ["bad-op"])
+      | _, _, _, _, _, _, _, _ => (s, ["bad-op"])
+  | ["hdr", i, ka, rc, dr, ver, ct, m, code, icy, sup, nodate, bufsize] =>
+      match i.toNat?.bind s.get, ka.toInt?.bind G.kaOfInt, b01 rc, b01 dr, ver.toInt?.bind G.verOfInt, ct.toNat?,
+            m.toInt?.bind G.mthdOfInt, code.toNat?, b01 icy, b01 sup, b01 nodate, bufsize.toNat? with
+      | some sl, some ka, some rc, some dr, some ver, some ct, some m, some code, some icy, some sup, some nodate, some bs =>
+        if ct < 4 && 100 ≤ code && code ≤ 999 then
+          let (k, p, out) := buildHeaderResponse (mkConn ka rc dr ver ct m sup) sl.r code icy
+                               (if nodate then none else some maskDate) bs
+          (s, [s!"ka={G.intOfKa k} p={propsChar k p} " ++ (match out with | some b => "out=" ++ hexOfBytes b | none => "NO")])
+        else (s, ["bad-op"])
+      | _, _, _, _, _, _, _, _, _, _, _, _ => (s, ["bad-op"])
+  | ["crb", wb, total, pos, dlen] =>
+      -- try_ready_chunked_body on a buffer response with `dlen` data bytes, `total` total size
+      match wb.toNat?, (if total == "u" then some Mhd.Gen.Reply.sizeUnknown else total.toNat?), pos.toNat?, dlen.toNat? with
+      | some wb, some total, some pos, some dlen =>
+        if 128 ≤ wb && pos < dlen && (pos ≤ total) then
+          let left := if total == Mhd.Gen.Reply.sizeUnknown then total else total - pos
+          if left == 0 then (s, ["finished"]) else
+          let stf := chunkSizeToFill wb left
+          let n := if dlen - pos > stf then stf else dlen - pos
+          match chunkFrame (patRange pos n) with
+          | some f => (s, ["chunk " ++ hexOfBytes f])
+          | none => (s, ["fault"])
+        else (s, ["bad-op"])
+      | _, _, _, _ => (s, ["bad-op"])
+  | ["foot?", i, bs] => match i.toNat?.bind s.get, bs.toNat? with
+      | some sl, some bs => (s, [match buildFooter sl.r bs with | some b => "out=" ++ hexOfBytes b | none => "NO"])
+      | _, _ => (s, ["bad-op"])
+  -- ---------------------------------------------------------------- complete exchanges
+  | ["x", m, ver, conn, expect, up, early, specs] =>
+      let v : Option Ver := if ver == "10" then some .v10 else if ver == "11" then some .v11
+                            else if ver == "12" then some .v12 else none
+      match v, optHex conn, optHex expect, up.toNat?, b01 early, parseSpecs specs with
+      | some v, some conn, some expect, some up, some early, some specs =>
+        let c : Conn := { ver := v, mthd := mthdOfToken m,
+                          reqClose := match conn with | some x => hasTokenCaseless x sClose | none => false,
+                          reqKeepAlive := match conn with | some x => hasTokenCaseless x sKeepAliveTok | none => false }
+        let pre : Bytes := if ! early && need100Continue v up expect then Mhd.Gen.Reply.http100Continue else []
+        match exchangeLoop s (some maskDate) 32000 c (if early then .headersProcessed else .fullReqReceived) 0 specs "" pre with
+        | some (qs, wire, closed) => (s, [s!"q={qs} wire={hexOfBytes wire} closed={if closed then 1 else 0}"])
+        | none => (s, ["bad-op"])
+      | _, _, _, _, _, _ => (s, ["bad-op"])
+  | _ => (s, ["bad-op"])
+
+def main : IO Unit := runEngine ({} : St) stepLine
